@@ -990,10 +990,6 @@ func (c *Conn) dispatch(fr *FrameHeader) bool {
 		}
 	}
 
-	if err != nil && errors.Is(err, FlowControlError) {
-		return true
-	}
-
 	return c.goneAway()
 }
 
